@@ -176,3 +176,48 @@ func ChildMain(dir, scriptPath string) int {
 	os.Stdout.WriteString("F " + s.Final.String() + " " + ErrName(err) + "\n")
 	return 0
 }
+
+// ConcMain is the child of the concurrency stream: history, "READY", then one goroutine
+// per operation list, all released at once.  The parent kills the process at an arbitrary
+// moment after READY.
+func ConcMain(dir, scriptPath string) int {
+	data, err := os.ReadFile(scriptPath)
+	if err != nil {
+		fmt.Println("CHILD-ERROR", err)
+		return 3
+	}
+	s, err := ParseScript(data)
+	if err != nil {
+		fmt.Println("CHILD-ERROR", err)
+		return 3
+	}
+	syscall.Umask(0o022)
+	ctx := context.Background()
+	st, err := oci.New(dir)
+	if err != nil {
+		fmt.Println("CHILD-ERROR new:", err)
+		return 4
+	}
+	st.AutoGC = false
+	for _, o := range s.History {
+		Do(ctx, st, s, o, dir)
+	}
+	start := make(chan struct{})
+	done := make(chan struct{})
+	for _, ops := range s.Conc {
+		go func(ops []Op) {
+			<-start
+			for _, o := range ops {
+				Do(ctx, st, s, o, dir)
+			}
+			done <- struct{}{}
+		}(ops)
+	}
+	os.Stdout.WriteString("READY\n")
+	close(start)
+	for range s.Conc {
+		<-done
+	}
+	os.Stdout.WriteString("DONE\n")
+	return 0
+}
